@@ -1628,3 +1628,82 @@ func c19ReRegistrationDuringKeepalives(ev *vlib.Evidence, driver string, idx int
 	close(stop)
 	<-done
 }
+
+// c08RepeatedRequests (C08): the same requester asks for peers twice within a
+// keep-alive interval without having peered with what it was given, and in
+// between the population changes: a host starts failing its whitelist calls,
+// another re-registers as a light client on its open connection. Every host
+// of the second reply is a full-node host that acknowledged a whitelist
+// instruction issued for that second request.
+func c08RepeatedRequests(ev *vlib.Evidence, driver string, idx int) {
+	r := vlib.Rand("C08-repeat-"+driver, idx)
+	w, err := vlib.NewWorld(vlib.WorldOptions{Driver: driver})
+	if err != nil {
+		panic(err)
+	}
+	defer w.Close()
+	nh := 2 + r.Intn(4)
+	hosts := []*vlib.Identity{}
+	conns := []*vlib.Conn{}
+	for i := 0; i < nh; i++ {
+		h := vlib.NewIdentity("c08rhost", i)
+		c, err := w.ConnectHost(h, "geth", fmt.Sprintf("192.0.2.%d:30303", i+1))
+		if err != nil {
+			ev.Inconclusive(fmt.Sprintf("c08 repeated-request setup: %v", err))
+			return
+		}
+		hosts, conns = append(hosts, h), append(conns, c)
+	}
+	requester := vlib.NewIdentity("c08rreq", idx%5)
+	rc, err := w.ConnectClient(requester, "geth", "192.0.2.200:30303")
+	if err != nil {
+		ev.Inconclusive(fmt.Sprintf("c08 repeated-request setup: %v", err))
+		return
+	}
+	arg := pool.PeerRequest{Num: nh, Kind: "geth"}
+	ask := func() (callOutcome, []store.Node, map[string]bool) {
+		stamp := w.Tick()
+		n := w.NextNonce(requester.NodeID)
+		out := guardedCall(rc.AgentSide, "vipnode_peer", vlib.RefSign(requester.Key, "vipnode_peer", requester.NodeID, n, arg), requester.NodeID, n, arg)
+		acked := map[string]bool{}
+		for _, e := range w.EventsSince(stamp) {
+			if e.Method == "whitelist" && e.Acked && strings.EqualFold(e.Arg, requester.NodeID) {
+				acked[e.Host] = true
+			}
+		}
+		return out, c08Result(out), acked
+	}
+	_, first, _ := ask()
+	// the population changes
+	failing := r.Intn(nh)
+	conns[failing].Rec.SetBehaviour(vlib.BehError, 0)
+	demoted := -1
+	if nh > 2 && r.Intn(2) == 0 {
+		demoted = (failing + 1) % nh
+		var resp pool.ConnectResponse
+		if err := w.Signed(conns[demoted].AgentSide, hosts[demoted], hosts[demoted].NodeID, "vipnode_connect", &resp, vlib.ConnectReq(false, "geth", "", "")); err != nil {
+			demoted = -1
+		}
+	}
+	out, second, acked := ask()
+	ev.Case(fmt.Sprintf("repeated-request/%s/hosts=%d/first=%d/demoted=%v", driver, nh, len(first), demoted >= 0), len(first) > 0)
+	ev.Count("repeated-peer-requests", 1)
+	detail := map[string]interface{}{"driver": driver, "hosts": nh, "first_reply": len(first), "second_reply": len(second), "err": fmt.Sprint(out.Err), "index": idx}
+	for _, n := range second {
+		id := string(n.ID)
+		switch {
+		case id == hosts[failing].NodeID:
+			ev.Violate("returned-host-that-failed-its-whitelist-call:repeated-request", detail)
+			return
+		case demoted >= 0 && id == hosts[demoted].NodeID:
+			ev.Violate("returned-node-that-is-no-longer-a-host:repeated-request", detail)
+			return
+		case !acked[id]:
+			ev.Violate("returned-host-without-acknowledgement-for-this-request:repeated-request", detail)
+			return
+		}
+	}
+	if len(second) > nh {
+		ev.Violate("more-hosts-than-requested:repeated-request", detail)
+	}
+}
